@@ -316,6 +316,10 @@ func init() {
 				if i%2 == 1 {
 					c.P["pace_us"] = 4000
 				}
+				if i%4 >= 1 {
+					// delays injected at the node's store, transport and application calls
+					c.P["jitter"] = 1
+				}
 				cs = append(cs, c)
 			}
 			// the same live soak in a worker built with the race detector: other
@@ -387,6 +391,10 @@ func init() {
 				c := CaseSpec{Kind: "soak", P: map[string]int64{"n": int64(3 + i%3), "txs": 240}}
 				if i%2 == 1 {
 					c.P["pace_us"] = 4000
+				}
+				if i%4 >= 1 {
+					// delays injected at the node's store, transport and application calls
+					c.P["jitter"] = 1
 				}
 				cs = append(cs, c)
 			}
@@ -485,6 +493,10 @@ func init() {
 				c := CaseSpec{Kind: "soak", P: map[string]int64{"n": int64(3 + i%3), "txs": 240}}
 				if i%2 == 1 {
 					c.P["pace_us"] = 4000
+				}
+				if i%4 >= 1 {
+					// delays injected at the node's store, transport and application calls
+					c.P["jitter"] = 1
 				}
 				cs = append(cs, c)
 			}
